@@ -337,6 +337,20 @@ async fn client_conn(app: App, conn: Connection, sc: Value) -> bool {
             true
         });
     }
+    if sc["cli_accepts"].as_bool().unwrap_or(false) {
+        // the server never opens a stream in this workload: these accepts stay parked until the connection ends
+        for bi in [true, false] {
+            let (app, conn) = (app.clone(), conn.clone());
+            tasks.spawn(async move {
+                let r = if bi { conn.accept_bi_stream().await.map(|_| ()) } else { conn.accept_uni_stream().await.map(|_| ()) };
+                match r {
+                    Ok(()) => app.ev("accept", 0, json!({"unexpected": true})),
+                    Err(e) => app.ev("err", 0, json!({"what": if bi { "accept_bi" } else { "accept_uni" }, "msg": errs(&e)})),
+                }
+                true
+            });
+        }
+    }
     for i in 0..nbi {
         let (app, conn) = (app.clone(), conn.clone());
         let size = size + i * 37;
@@ -600,6 +614,7 @@ fn slim(e: &Value) -> Value {
         "scheme_ok": name.starts_with("quic:"),
         "has_time": q["time"].is_number(), "has_name": q["name"].is_string(), "has_data": q["data"].is_object(),
         "has_group": q.get("group_id").is_some(),
+        "gid": q.get("group_id").and_then(|g| g.as_str()).unwrap_or(""),
     });
     match o["name"].as_str().unwrap() {
         "packet_sent" | "packet_received" | "packet_lost" | "packet_dropped" => {
